@@ -383,6 +383,8 @@ SHIPPED = [
 # properties some shipped equations need beyond the method arguments' own
 # names, with strides
 STRIDES = {'A3': 3}
+# properties the shipped equations declare as integer arrays
+INT_PROPS = {'converged': 'int'}
 
 
 def load_class(ref, modules):
@@ -1116,7 +1118,7 @@ def run_program(arg):
                 nn += len(neighbours(pa.name, pa.name, di))
         out['exact'] = exact_all
         out['nbrs_sampled'] = nn
-    except Exception as e:   # noqa
+    except BaseException as e:   # noqa  (compyle exits on a compile error)
         out['ok'] = False
         out['err'] = '%s: %s\n%s' % (type(e).__name__, e,
                                      traceback.format_exc()[-1500:])
@@ -1207,7 +1209,7 @@ def shipped_program(rng, entries, dim=None, compile_=True):
     n = {1: 16, 2: 30, 3: 40}[dim]
     arrays = []
     for nm in names:
-        props = {p: {'type': 'double'} for p in
+        props = {p: {'type': INT_PROPS.get(p, 'double')} for p in
                  sorted(need.get(nm, set()) | {'h', 'm', 'rho', 'u', 'v', 'w'})
                  if p not in ('tag', 'pid', 'gid')}
         arrays.append({'name': nm, 'n': n, 'props': props, 'consts': {},
